@@ -123,7 +123,7 @@ def spot_oracles(V, opt, sc, bounds, g, stats, first=None):
             Z = (mu - ymax) / sg
             if Z < -3:
                 stats["probe_far_tail_branch_Z_below_minus_3"] += 1
-            if Z < -30 or Z > 30:
+            if Z < -200 or Z > 30:
                 continue
             ref = ref_ln_ei(mu, sg, ymax)
             if abs(-of - ref) > 1e-6 * max(1.0, abs(ref)):
